@@ -470,7 +470,24 @@ fn queries() -> impl Strategy<Value = CliCase> {
         Just("1 m^2 / 3 s".to_string()),
         "[ -~]{0,12}".prop_map(|s| s),
     ];
+    // several results in a row carrying the same unit, values one and not one next to each other, a failure in between
+    let same_unit_run = (gen::single_unit(), prop::collection::vec(prop_oneof![
+            3 => Just("1"), 2 => Just("2"), 1 => Just("1.0"), 1 => Just("0.5"), 1 => Just("-1"), 1 => Just("0"), 1 => Just("1e0"), 1 => Just("3 - 2"), 1 => Just("ERR"), 1 => Just("PLAIN"),
+        ], 2..=6))
+        .prop_map(|(u, vs)| {
+            let u = u.render();
+            vs.iter()
+                .map(|v| match *v {
+                    "ERR" => "(1 / 0)".to_string(),
+                    "PLAIN" => "(1)".to_string(),
+                    "3 - 2" => format!("(3 {} - 2 {})", u, u),
+                    v => format!("({} {})", v, u),
+                })
+                .collect::<Vec<_>>()
+                .join(" ")
+        });
     prop_oneof![
+        2 => same_unit_run,
         3 => gen::num_expr(small).prop_map(|e| render_canonical(&e)),
         3 => super::c02::pair().prop_map(|p| render_canonical(&super::c02::expr_of(&p))),
         3 => super::c04::tree().prop_map(|e| render_canonical(&e)),
@@ -492,7 +509,7 @@ fn queries() -> impl Strategy<Value = CliCase> {
 }
 
 pub fn run_check(ctx: &Ctx) {
-    ctx.set_rule("queries from the other generators (numeric trees, commensurable/incommensurable pairs, quantity products, fact expressions, multi-result queries, single pluralisable units with value 1 and not 1, denominator-only units, error inputs, printable-ASCII noise) are run through the real `any` binary (compiled from /repo/src/bin/any.rs) in default and --exact mode under a private XDG_DATA_HOME; stdout must equal, byte for byte, the text the harness prints from the library's results (numerator[/denominator]; 12-digit rendering that also satisfies C08's oracle; space iff the unit has a numerator; pluralised iff value != 1; codespan diagnostics for errors; later results still printed) and the exit status must be 0; non-trivial = output has a unit, several results or an error block; distinct by query text");
+    ctx.set_rule("queries from the other generators (numeric trees, commensurable/incommensurable pairs, quantity products, fact expressions, multi-result queries, single pluralisable units with value 1 and not 1, runs of two to six results that carry one and the same unit with values one and not one next to each other and failures in between, denominator-only units, error inputs, printable-ASCII noise) are run through the real `any` binary (compiled from /repo/src/bin/any.rs) in default and --exact mode under a private XDG_DATA_HOME; stdout must equal, byte for byte, the text the harness prints from the library's results (numerator[/denominator]; 12-digit rendering that also satisfies C08's oracle; space iff the unit has a numerator; pluralised iff value != 1; codespan diagnostics for errors; later results still printed) and the exit status must be 0; non-trivial = output has a unit, several results or an error block; distinct by query text");
     ctx.assume("the binary is compiled from the unmodified source file /repo/src/bin/any.rs as a [[bin]] of the harness crate, linked against the same build of the library");
     let corpus: Vec<(String, CliCase)> = load_corpus("C19");
     let cases: Vec<CliCase> = corpus.into_iter().map(|c| c.1).collect();
